@@ -857,19 +857,28 @@ func (m *MutableOverlayWorld) AddFeature(f Feature) error {
 		return err
 	}
 
-	existing := (*m.features)[f.FeatureID()]
+	existing, overlaid := (*m.features)[f.FeatureID()]
 	references := allReferences(f, m)
-	if existing != nil {
+	if len(references) > 0 {
+		// The feature being replaced may only exist in the base world, in
+		// which case there's nothing to restore in the overlay afterwards.
+		restore := func() {
+			if overlaid {
+				(*m.features)[f.FeatureID()] = existing
+			} else {
+				delete(*m.features, f.FeatureID())
+			}
+		}
 		(*m.features)[f.FeatureID()] = f
 
 		for _, reference := range references {
 			if err := ValidateFeature(NewFeatureFromWorld(reference), &ValidateOptions{InvertClockwisePaths: false}, m); err != nil {
-				(*m.features)[f.FeatureID()] = existing
+				restore()
 				return err
 			}
 		}
 
-		(*m.features)[f.FeatureID()] = existing
+		restore()
 	}
 
 	modified := NewModifiedFeaturesWithCopies(f, references, m.features, m)
